@@ -9,9 +9,11 @@ package main
 // except for preconditions, so aliasing is refused unless exactly one name changed at that ordinal.
 
 import (
+	"bytes"
 	"encoding/json"
 	"fmt"
 	"go/ast"
+	"go/printer"
 	"go/types"
 	"os"
 	"path/filepath"
@@ -151,8 +153,121 @@ func cmdLocals() int {
 	sort.Strings(keys)
 	for _, k := range keys {
 		out[k] = e.declaredNames(k)
+		out[k+"#loops"] = e.loopHeaders(k)
 	}
 	b, _ := json.MarshalIndent(out, "", " ")
 	fmt.Println(string(b))
 	return 0
+}
+
+// loopHeaders: the loops of a function in pre-order, each as the text of its header (init; cond; post / range clause).
+func (e *Engine) loopHeaders(key string) []string {
+	fd := e.decls[key]
+	if fd == nil || fd.Body == nil {
+		return nil
+	}
+	hs := []string{}
+	pr := func(n ast.Node) string {
+		if n == nil {
+			return ""
+		}
+		var b bytes.Buffer
+		_ = printer.Fprint(&b, e.fset, n)
+		return b.String()
+	}
+	ast.Inspect(fd.Body, func(n ast.Node) bool {
+		switch s := n.(type) {
+		case *ast.ForStmt:
+			var init, post ast.Node
+			if s.Init != nil {
+				init = s.Init
+			}
+			if s.Post != nil {
+				post = s.Post
+			}
+			var cond ast.Node
+			if s.Cond != nil {
+				cond = s.Cond
+			}
+			hs = append(hs, "for "+pr(init)+"; "+pr(cond)+"; "+pr(post))
+		case *ast.RangeStmt:
+			var k, v ast.Node
+			if s.Key != nil {
+				k = s.Key
+			}
+			if s.Value != nil {
+				v = s.Value
+			}
+			hs = append(hs, "range "+pr(k)+", "+pr(v)+" := "+pr(s.X))
+		}
+		return true
+	})
+	return hs
+}
+
+// loopOrdinals maps the current loops (pre-order) to the loop ordinals the contract was written with. Unchanged
+// functions map k -> k. When loops were added or removed, the recorded headers (locals.json) are aligned with the
+// current ones by a longest common subsequence on the header text; a loop that matches no recorded loop gets an
+// ordinal above every contract ordinal (it has no loop contract and is cut with the invariant `true`), and a recorded
+// loop that disappeared keeps its ordinal unused (a loop contract naming it is a contract/code mismatch, as before).
+func (e *Engine) loopOrdinals(key string, n int) []int {
+	e.loadLocals()
+	ords := make([]int, n)
+	for i := range ords {
+		ords[i] = i + 1
+	}
+	snap, ok := e.localsSnap[key+"#loops"]
+	if !ok {
+		return ords
+	}
+	cur := e.loopHeaders(key)
+	if len(cur) != n {
+		return ords
+	}
+	same := len(cur) == len(snap)
+	if same {
+		for i := range cur {
+			if cur[i] != snap[i] {
+				same = false
+			}
+		}
+	}
+	if same || len(cur) == len(snap) {
+		return ords // same number of loops: positional (headers may have been edited in place)
+	}
+	// LCS alignment
+	m := len(snap)
+	L := make([][]int, m+1)
+	for i := range L {
+		L[i] = make([]int, n+1)
+	}
+	for i := m - 1; i >= 0; i-- {
+		for j := n - 1; j >= 0; j-- {
+			if snap[i] == cur[j] {
+				L[i][j] = L[i+1][j+1] + 1
+			} else if L[i+1][j] >= L[i][j+1] {
+				L[i][j] = L[i+1][j]
+			} else {
+				L[i][j] = L[i][j+1]
+			}
+		}
+	}
+	extra := 1000
+	i, j := 0, 0
+	for j < n {
+		switch {
+		case i < m && snap[i] == cur[j]:
+			ords[j] = i + 1
+			i++
+			j++
+		case i < m && L[i+1][j] >= L[i][j+1]:
+			i++
+		default:
+			extra++
+			ords[j] = extra
+			j++
+		}
+	}
+	e.note(key, fmt.Sprintf("loops were added or removed: contract loop ordinals aligned by header text (%v)", ords))
+	return ords
 }
